@@ -91,14 +91,36 @@ func execC13(cell c13Cell) *vstat.Outcome {
 	} else {
 		filter = regexp.MustCompile(`text|javascript|json|wasm|xml|font`) // the documented default
 	}
+	reloadedFromStore := false
 	if !cell.Cacheable && cell.BodySeed%2 != 0 {
 		resp.CompressSrv = "c13fast"
 	}
 	if cell.Cacheable {
 		// as the proxy creates it: one variant, then the entry becomes cacheable
 		resp.RawBody = body
-		hc := cache.NewHTTPCache()
-		hc.Cacheable(resp, 60)
+		if cell.Reload {
+			// an entry of a cache with a store: what a later lookup (after an eviction, a restart)
+			// finds in the store is what gets served
+			st := newMapStore()
+			key := []byte("GET c13.test /cell")
+			hc := cache.NewHTTPStoreCache(key, st)
+			if status, _ := hc.Get(); status != cache.StatusFetching {
+				out.Violate("C13", "harness", "new entry on an empty store: status %v", status)
+				return out
+			}
+			hc.Cacheable(resp, 60)
+			status, back := cache.NewHTTPStoreCache(key, st).Get()
+			if status != cache.StatusHit || back == nil {
+				out.Violate("C08", "not-restored", "a cacheable response stored a moment ago is not found in the store by a new entry of the key (status %v)", status)
+				return out
+			}
+			resp = back
+			reloadedFromStore = true
+			out.Class("served_from_the_store_record")
+		} else {
+			hc := cache.NewHTTPCache()
+			hc.Cacheable(resp, 60)
+		}
 	} else {
 		if cell.Stored&1 != 0 {
 			resp.RawBody = body
@@ -111,7 +133,7 @@ func execC13(cell c13Cell) *vstat.Outcome {
 		}
 	}
 	storedGz, storedBr, storedRaw := resp.GzipBody, resp.BrBody, resp.RawBody
-	if cell.Reload {
+	if cell.Reload && !reloadedFromStore {
 		data, err := resp.Bytes()
 		if err != nil {
 			out.Violate("C09", "encode", "Bytes failed: %v", err)
